@@ -40,7 +40,7 @@ type Tree struct {
 }
 
 var rec = ev.New("C13", "c13.calltree",
-	"generated call trees: a root template and up to 5 generated components whose bodies and child blocks are sequences of markers, children slots (0..2 per body), and calls - with or without a block, nested up to depth 4 - to generated components, once handles (block form and fixed-component form), templ.Flush, templ.Raw, templ.Join, a function component that ignores children, a hand-written one that renders templ.GetChildren and a hand-written layer that renders two generated components with the context it received; "+
+	"generated call trees: a root template and up to 5 generated components whose bodies and child blocks are sequences of markers, children slots (0..2 per body), and calls - with or without a block, nested up to depth 4 - to generated components, once handles (block form and fixed-component form), templ.Flush, templ.Raw, templ.Join, a function component that ignores children, a hand-written one that renders templ.GetChildren, one that captures its children in a buffer of its own before writing them, and a hand-written layer that renders two generated components with the context it received; "+
 		"every tree is generated with /repo's generator, compiled and rendered; the marker sequence must equal the one computed by a reference interpreter of the statement (a callee gets exactly its call site's block, blocks are evaluated in the caller's scope, nothing leaks to siblings or descendants, nothing is rendered twice). "+
 		"Non-trivial = the tree has a no-block call inside some block, or a sibling after a call whose callee does not consume its block; distinct by tree")
 
@@ -114,6 +114,11 @@ func (in *interp) eval(items []Item, sc *scope) {
 				}
 			case "flush", "fnkids":
 				in.renderClosure(blk)
+			case "fncapture":
+				// renders its children into a buffer of its own and writes the result inside <u>
+				in.sb.WriteString("<u>")
+				in.renderClosure(blk)
+				in.sb.WriteString("</u>")
 			case "raw":
 				in.sb.WriteString("<b>" + it.Text + "</b>")
 			case "fn":
@@ -202,6 +207,8 @@ func (t Tree) source(prefix string) string {
 					expr = fmt.Sprintf("fnText(%q)", it.Text)
 				case "fnkids":
 					expr = "fnKids()"
+				case "fncapture":
+					expr = "fnCapture()"
 				case "join", "fnseq":
 					var args []string
 					for _, c := range it.joined() {
@@ -274,6 +281,21 @@ func fnSeq(cs ...templ.Component) templ.Component {
 			}
 		}
 		return nil
+	})
+}
+
+// fnCapture is a hand-written component that renders the children it was given into a buffer of
+// its own (to post-process them) and then writes the result between <u> tags.
+func fnCapture() templ.Component {
+	return templ.ComponentFunc(func(ctx context.Context, w io.Writer) error {
+		children := templ.GetChildren(ctx)
+		ctx = templ.ClearChildren(ctx)
+		var captured bytes.Buffer
+		if err := children.Render(ctx, &captured); err != nil {
+			return err
+		}
+		_, err := io.WriteString(w, "<u>"+captured.String()+"</u>")
+		return err
 	})
 }
 
@@ -415,7 +437,7 @@ func (g genCtx) items(depth int, inBlock bool) []Item {
 			out = append(out, Item{Kind: "slot"})
 		default:
 			it := Item{Kind: "call"}
-			callees := []string{"gen", "gen", "gen", "once", "oncefixed", "flush", "raw", "fn", "fnkids", "join", "fnseq"}
+			callees := []string{"gen", "gen", "gen", "once", "oncefixed", "flush", "raw", "fn", "fnkids", "join", "fnseq", "fncapture"}
 			it.Callee = rapid.SampledFrom(callees).Draw(g.t, "callee")
 			lo := g.current + 1
 			if (it.Callee == "gen" || it.Callee == "join" || it.Callee == "fnseq") && lo >= g.nComps {
